@@ -1,6 +1,6 @@
 """C14 / C15 for the JASPAR (raw), JASPAR 2016 and UniPROBE readers (group `io`): SPEC dicts
 merged by props/c14.py and props/c15.py with the TRANSFAC group."""
-from translate import io_abc
+from translate import io_abc, io_reader
 
 
 def _fields(line):
@@ -119,7 +119,7 @@ _COMMON = dict(
     ocaml_packages=("str", "unix"),
     extra=_selftest,
     signature=_signature,
-    translate=io_abc.translate,
+    translate=io_reader.translate_all,
 )
 
 C14_SPEC = dict(
